@@ -123,8 +123,19 @@ def run(ctx):
                     if view == "gplusdir":
                         _check_blocks(res, rows, inp, rp)
                     # correspondence with the model's builders
+                    # local targets that happen to exist ("/" + blank payload is the root) are populated from the file system
+                    pops = []
+                    try:
+                        from props.c09 import reference
+                        for ent in reference(gmb, "/" + d, listing.SRV):
+                            if ent[2] and not ent[2].startswith(("URL:", "/URL:")):
+                                pi = listing.pop_info(tree, cfg, ent[2]) if "\0" not in ent[2] else None
+                                if pi and pi not in pops:
+                                    pops.append(pi)
+                    except Exception:  # noqa
+                        pass
                     model_lines.append(listing.model_request(view, gplus, "/" + d, cfg.getboolean("pygopherd", "abstract_headers"),
-                                                             cfg.get("pygopherd", "abstract_entries"), None, listing.gm_lines(gmb)))
+                                                             cfg.get("pygopherd", "abstract_entries"), None, listing.gm_lines(gmb), pops))
                     model_checks.append(("listing", inp, rows))
         # ---- error pages -----------------------------------------------------------
         for pl in payloads:
@@ -144,10 +155,13 @@ def run(ctx):
                     res.violation(f"C13:structure-changed:{p}:error-page", "data changed the structure of an error page", inp,
                                   observed=s1[1][-200:], required=s2[1][-200:], replay=rp)
                 _check_headers(res, r.out, inp, rp)
-                # the message the handler produced, read from the plain Gopher error line
-                g = pyg.request(reqs.build("gopher", sel), cfg)
-                if g.out.startswith(b"3") and b"\t\terror.host\t1\r\n" in g.out:
-                    msg = g.out[1:g.out.rfind(b"\t\terror.host\t1\r\n")].decode("utf-8", "surrogateescape")
+                # the message the handler produced, read from this request's own log line
+                msg = None
+                for ln in r.log:
+                    k = ln.find("EXCEPTION FileNotFound: ")
+                    if k >= 0:
+                        msg = ln[k + len("EXCEPTION FileNotFound: "):]
+                if msg is not None:
                     model_lines.append(("httperror" if p == "http" else "waperror") + "\t" + enc_str(msg))
                     model_checks.append(("errorpage", inp, b1))
         # ---- URL redirect page --------------------------------------------------------
